@@ -155,7 +155,10 @@ instance : TransCmp cmp where
       | lt => simp [cmp_lt_trans hab hbc]
 
 theorem lt_iff (a b : K) : lt a b = true ↔ cmp a b = .lt := by simp [lt]
-theorem beq_iff (a b : K) : beq a b = true ↔ a = b := by simp [beq, cmp_eq_iff]
+theorem beq_iff (a b : K) : beq a b = true ↔ a = b := by simp [beq]
+
+theorem beq_eq_false_iff (a b : K) : beq a b = false ↔ a ≠ b := by
+  rw [← Bool.not_eq_true, beq_iff]
 
 theorem lt_irrefl (a : K) : lt a a = false := by simp [lt, cmp_self]
 theorem lt_trans {a b c : K} (h₁ : lt a b = true) (h₂ : lt b c = true) : lt a c = true := by
@@ -189,7 +192,7 @@ theorem not_lt_not_lt_eq {a b : K} (h₁ : lt a b = false) (h₂ : lt b a = fals
 end K
 
 /-! ## B. insertion sort -/
-section Sort
+section Sorting
 variable {α : Type}
 
 theorem insertBy_perm (lt : α → α → Bool) (x : α) (l : List α) : (insertBy lt x l).Perm (x :: l) := by
@@ -319,6 +322,334 @@ theorem sortedLT_of_nodup (c : α → α → Ordering) [LawfulEqCmp c] {l : List
       have : x = y := LawfulEqCmp.eq_of_compare hc
       subst this; exact absurd hy hn.1
 
-end Sort
+end Sorting
+
+/-! ## C. equations of the fold -/
+section CataEq
+variable {β : Type} (alg : RepF β → β)
+
+theorem cataL_eq (xs : List Rep) : cataL alg xs = xs.map (cata alg) := by
+  induction xs with
+  | nil => rfl
+  | cons x xs ih => simp [cataL, ih]
+
+theorem cataA_eq (as : List (String × Rep)) : cataA alg as = as.map (fun p => (p.1, cata alg p.2)) := by
+  induction as with
+  | nil => rfl
+  | cons p r ih => obtain ⟨n, x⟩ := p; simp [cataA, ih]
+
+theorem cataO_eq (vs : List (Option Rep)) : cataO alg vs = vs.map (Option.map (cata alg)) := by
+  induction vs with
+  | nil => rfl
+  | cons v r ih => cases v <;> simp [cataO, ih]
+
+theorem cataLL_eq (m : List (List Rep)) : cataLL alg m = m.map (List.map (cata alg)) := by
+  induction m with
+  | nil => rfl
+  | cons l r ih => simp [cataLL, ih, cataL_eq]
+
+end CataEq
+
+theorem negInner_map {β γ : Type} (f : β → γ) (as : List (String × β)) :
+    negInner (as.map (fun p => (p.1, f p.2))) = (negInner as).map f := by
+  match as with
+  | [] => rfl
+  | [(n, x)] => simp only [List.map, negInner]; split <;> rfl
+  | _ :: _ :: _ => rfl
+
+theorem negInner_some {β : Type} {as : List (String × β)} {x : β} (h : negInner as = some x) :
+    as = [(negateTag, x)] := by
+  match as, h with
+  | [(n, y)], h =>
+    simp only [negInner] at h
+    split at h
+    · rename_i hn; cases h; rw [hn]
+    · cases h
+
+/-! ### `key`, `kind`, `depth` on each constructor -/
+@[simp] theorem key_num (n : Int) : key (.num n) = .node [.int kNumber, .int n] := rfl
+@[simp] theorem key_gtuple (as : List (String × Rep)) :
+    key (.gtuple as) = tupleKeyAlg (as.map (fun p => (p.1, key p.2))) := by
+  simp [key, cata, keyAlg, cataA_eq]
+@[simp] theorem key_charT (i c : Int) : key (.charT i c) = .node [.int kCharT, .int i, .int c] := rfl
+@[simp] theorem key_byteT (i c : Int) : key (.byteT i c) = .node [.int kByteT, .int i, .int c] := rfl
+@[simp] theorem key_itemT (i : Int) (x : Rep) : key (.itemT i x) = .node [.int kItemT, .int i, key x] := rfl
+@[simp] theorem key_entryT (k v : Rep) : key (.entryT k v) = .node [.int kEntryT, key k, key v] := rfl
+@[simp] theorem key_empty : key .empty = .node [.int kEmpty] := rfl
+@[simp] theorem key_true : key .true_ = .node [.int kTrue] := rfl
+@[simp] theorem key_generic (xs : List Rep) :
+    key (.generic xs) = .node (.int kGenericSet :: isort K.lt (xs.map key)) := by
+  simp [key, cata, keyAlg, cataL_eq]
+@[simp] theorem key_str (s : List Int) (off : Int) :
+    key (.str s off) = .node (.int kString :: .int off :: s.map K.int) := rfl
+@[simp] theorem key_bytes (s : List Int) (off : Int) :
+    key (.bytes s off) = .node (.int kBytes :: .int off :: s.map K.int) := rfl
+@[simp] theorem key_array (vs : List (Option Rep)) (off : Int) :
+    key (.array vs off) = .node (.int kArray :: .int off :: vs.map (fun o => optKey (o.map key))) := by
+  simp [key, cata, keyAlg, cataO_eq]
+@[simp] theorem key_dict (m : List (List Rep)) :
+    key (.dict m) = .node (.int kDict ::
+      (isort (fun e f => K.lt (entryHead e) (entryHead f)) (m.map (List.map key))).map entryKey) := by
+  simp [key, cata, keyAlg, cataLL_eq]
+@[simp] theorem key_relation (ns : List String) (rows : List (List Rep)) :
+    key (.relation ns rows) =
+      .node [.int kRelation, .int ns.length, .node ((isort strLt ns).map K.name), .int rows.length,
+        .node (isort K.lt (rows.map (fun row => tupleKeyAlg (zipNames ns (row.map key)))))] := by
+  simp [key, cata, keyAlg, cataLL_eq, Function.comp_def]
+@[simp] theorem key_union (xs : List Rep) :
+    key (.union xs) = .node (.int kUnion :: isort K.lt (xs.map key)) := by
+  simp [key, cata, keyAlg, cataL_eq]
+
+@[simp] theorem kind_num (n : Int) : kind (.num n) = kNumber := rfl
+theorem kind_gtuple (as : List (String × Rep)) :
+    kind (.gtuple as) = negKind ((negInner as).map kind) := by
+  simp [kind, cata, kindAlg, cataA_eq, negInner_map]
+@[simp] theorem kind_charT (i c : Int) : kind (.charT i c) = kCharT := rfl
+@[simp] theorem kind_byteT (i c : Int) : kind (.byteT i c) = kByteT := rfl
+@[simp] theorem kind_itemT (i : Int) (x : Rep) : kind (.itemT i x) = kItemT := rfl
+@[simp] theorem kind_entryT (k v : Rep) : kind (.entryT k v) = kEntryT := rfl
+@[simp] theorem kind_empty : kind .empty = kEmpty := rfl
+@[simp] theorem kind_true : kind .true_ = kTrue := rfl
+@[simp] theorem kind_generic (xs : List Rep) : kind (.generic xs) = kGenericSet := rfl
+@[simp] theorem kind_str (s : List Int) (off : Int) : kind (.str s off) = kString := rfl
+@[simp] theorem kind_bytes (s : List Int) (off : Int) : kind (.bytes s off) = kBytes := rfl
+@[simp] theorem kind_array (vs : List (Option Rep)) (off : Int) : kind (.array vs off) = kArray := rfl
+@[simp] theorem kind_dict (m : List (List Rep)) : kind (.dict m) = kDict := rfl
+@[simp] theorem kind_relation (ns : List String) (rows : List (List Rep)) : kind (.relation ns rows) = kRelation := rfl
+@[simp] theorem kind_union (xs : List Rep) : kind (.union xs) = kUnion := rfl
+
+theorem depth_gtuple (as : List (String × Rep)) : depth (.gtuple as) = 1 + maxL (as.map (fun p => depth p.2)) := by
+  simp [depth, cata, depthAlg, cataA_eq, Function.comp_def]
+theorem depth_itemT (i : Int) (x : Rep) : depth (.itemT i x) = 1 + depth x := rfl
+theorem depth_entryT (k v : Rep) : depth (.entryT k v) = 1 + max (depth k) (depth v) := rfl
+theorem depth_generic (xs : List Rep) : depth (.generic xs) = 1 + maxL (xs.map depth) := by
+  simp [depth, cata, depthAlg, cataL_eq]
+theorem depth_array (vs : List (Option Rep)) (off : Int) :
+    depth (.array vs off) = 1 + maxL (vs.map (fun o => optDepth (o.map depth))) := by
+  simp [depth, cata, depthAlg, cataO_eq, Function.comp_def]
+theorem depth_dict (m : List (List Rep)) : depth (.dict m) = 1 + maxL (m.map (fun e => maxL (e.map depth))) := by
+  simp [depth, cata, depthAlg, cataLL_eq, Function.comp_def]
+theorem depth_relation (ns : List String) (rows : List (List Rep)) :
+    depth (.relation ns rows) = 2 + maxL (rows.map (fun e => maxL (e.map depth))) := by
+  simp [depth, cata, depthAlg, cataLL_eq, Function.comp_def]
+theorem depth_union (xs : List Rep) : depth (.union xs) = 1 + maxL (xs.map depth) := by
+  simp [depth, cata, depthAlg, cataL_eq]
+
+theorem le_maxL {d : Nat} {ds : List Nat} (h : d ∈ ds) : d ≤ maxL ds := by
+  induction ds with
+  | nil => cases h
+  | cons x xs ih =>
+    simp only [maxL]
+    rcases List.mem_cons.1 h with rfl | h
+    · exact Nat.le_max_left _ _
+    · exact Nat.le_trans (ih h) (Nat.le_max_right _ _)
+
+theorem depth_lt_of_mem_map {xs : List Rep} {x : Rep} (h : x ∈ xs) : depth x ≤ maxL (xs.map depth) :=
+  le_maxL (List.mem_map.2 ⟨x, h, rfl⟩)
+
+theorem depth_induction {P : Rep → Prop} (h : ∀ a, (∀ b, depth b < depth a → P b) → P a) : ∀ a, P a := by
+  intro a
+  generalize hn : depth a = n
+  induction n using Nat.strongRecOn generalizing a with
+  | _ n ih =>
+    apply h
+    intro b hb
+    exact ih (depth b) (by omega) b rfl
+
+/-! ## D. the order embedding -/
+
+namespace K
+theorem lt_node (l l' : List K) : lt (.node l) (.node l') = (cmpList l l' == .lt) := rfl
+theorem lt_swap (a b : K) : lt b a = (cmp a b == .gt) := by
+  unfold lt; rw [cmp_swap a b]; cases cmp b a <;> rfl
+theorem beq_def (a b : K) : beq a b = (cmp a b == .eq) := rfl
+end K
+
+theorem int_cmp_lt (x y : Int) : (compare x y == .lt) = decide (x < y) := by
+  by_cases h : x < y
+  · simp [h, Int.compare_eq_lt.2 h]
+  · have : compare x y ≠ .lt := fun hc => h (Int.compare_eq_lt.1 hc)
+    cases hc : compare x y <;> simp_all
+
+theorem int_cmp_eq (x y : Int) : compare x y = .eq ↔ x = y := LawfulEqOrd.compare_eq_iff_eq
+
+theorem nat_cmp_lt (x y : Nat) : (compare (x : Int) (y : Int) == .lt) = decide (x < y) := by
+  rw [int_cmp_lt]; simp
+
+theorem step3 (r1 r2 : Bool) (o rest : Ordering) (h1 : r1 = (o == .lt)) (h2 : r2 = (o == .gt)) :
+    (if r1 then true else if r2 then false else (rest == .lt)) = (o.then rest == .lt) := by
+  subst h1 h2; cases o <;> simp [Ordering.then]
+
+theorem negKind_cases (o : Option Int) : negKind o = kGenericTuple ∨ negKind o < 0 := by
+  cases o with
+  | none => exact Or.inl rfl
+  | some k =>
+    simp only [negKind]
+    split
+    · right; omega
+    · left; rfl
+
+abbrev ctorId := Old.ctorId
+
+theorem kind_gtuple_ne {as : List (String × Rep)} {k : Int} (hk : 0 < k) (hk' : k ≠ kGenericTuple) :
+    kind (.gtuple as) ≠ k := by
+  rw [kind_gtuple]
+  rcases negKind_cases ((negInner as).map kind) with h | h
+  · rw [h]; exact fun e => hk' e.symm
+  · omega
+
+/-- equal kinds are the same Go type -/
+theorem kind_eq_ctor {a b : Rep} (h : kind a = kind b) : ctorId a = ctorId b := by
+  cases a <;> cases b <;> simp only [ctorId, Old.ctorId] <;> first
+    | rfl
+    | (exfalso; revert h; simp [kNumber, kEmpty, kTrue, kGenericSet, kString, kBytes, kArray, kDict, kUnion,
+        kRelation, kCharT, kItemT, kEntryT, kByteT]; done)
+    | (exfalso
+       simp only [kind_num, kind_charT, kind_byteT, kind_itemT, kind_entryT, kind_empty, kind_true, kind_generic,
+         kind_str, kind_bytes, kind_array, kind_dict, kind_relation, kind_union] at h
+       first
+         | (refine absurd h (kind_gtuple_ne ?_ ?_) <;> decide)
+         | (refine absurd h.symm (kind_gtuple_ne ?_ ?_) <;> decide))
+
+theorem kindOf_key : ∀ a : Rep, K.kindOf (key a) = kind a := by
+  apply depth_induction
+  intro a ih
+  cases a with
+  | gtuple as =>
+    rw [key_gtuple, kind_gtuple, tupleKeyAlg, negInner_map]
+    cases h : negInner as with
+    | none => rfl
+    | some x =>
+      have has := negInner_some h
+      have hx : K.kindOf (key x) = kind x := by
+        apply ih; subst has; rw [depth_gtuple]; simp [maxL]
+      simp only [Option.map, negKey, negKind, hx]
+      split <;> rfl
+  | _ => simp [K.kindOf] <;> rfl
+
+def K.tail : K → List K
+  | .node (_ :: r) => r
+  | _ => []
+
+theorem key_eq_node (a : Rep) : key a = .node (.int (kind a) :: K.tail (key a)) := by
+  cases a with
+  | gtuple as =>
+    rw [kind_gtuple, key_gtuple, tupleKeyAlg, negInner_map]
+    cases h : negInner as with
+    | none => rfl
+    | some x =>
+      simp only [Option.map, negKey, negKind, kindOf_key]
+      split <;> rfl
+  | _ => simp [K.tail] <;> rfl
+
+theorem lt_of_kind_ne {a b : Rep} (h : kind a ≠ kind b) :
+    K.lt (key a) (key b) = decide (kind a < kind b) := by
+  rw [key_eq_node a, key_eq_node b, K.lt_node]
+  simp only [K.cmpList, K.cmp]
+  have : compare (kind a) (kind b) ≠ .eq := fun e => h ((int_cmp_eq _ _).1 e)
+  rw [← int_cmp_lt]
+  cases hc : compare (kind a) (kind b) <;> simp_all [Ordering.then]
+
+theorem cmp_optKey_none_none : K.cmp (optKey none) (optKey none) = .eq := by decide
+theorem cmp_optKey_some_none (a : K) : K.cmp (optKey (some a)) (optKey none) = .lt := by
+  simp [optKey, K.cmp, K.cmpList]; decide
+theorem cmp_optKey_none_some (a : K) : K.cmp (optKey none) (optKey (some a)) = .gt := by
+  simp [optKey, K.cmp, K.cmpList]; decide
+theorem cmp_optKey_some_some (a b : K) : K.cmp (optKey (some a)) (optKey (some b)) = K.cmp a b := by
+  simp [optKey, K.cmp, K.cmpList, Ordering.then]
+  cases K.cmp a b <;> rfl
+
+section Loops
+variable (n : Nat) (R : Rep → Rep → Bool)
+variable (H : ∀ x y, depth x < n → depth y < n → R x y = K.lt (key x) (key y))
+include H
+
+theorem R_step (x y : Rep) (hx : depth x < n) (hy : depth y < n) (rest : Ordering) (c : Bool)
+    (hc : c = (rest == .lt)) :
+    (if R x y then true else if R y x then false else c) = ((K.cmp (key x) (key y)).then rest == .lt) := by
+  subst hc
+  exact step3 _ _ _ _ (by rw [H x y hx hy]; rfl) (by rw [H y x hy hx, K.lt_swap])
+
+theorem lexLoop_eq : ∀ (l l' : List Rep), (∀ x ∈ l, depth x < n) → (∀ y ∈ l', depth y < n) →
+    Impl.lexLoop R l l' = (K.cmpList (l.map key) (l'.map key) == .lt)
+  | [], [], _, _ => rfl
+  | [], _ :: _, _, _ => rfl
+  | _ :: _, [], _, _ => rfl
+  | a :: as, b :: bs, hl, hl' => by
+    simp only [Impl.lexLoop, List.map_cons, K.cmpList]
+    exact R_step n R H a b (hl a (by simp)) (hl' b (by simp)) _ _
+      (lexLoop_eq as bs (fun x hx => hl x (List.mem_cons_of_mem _ hx)) (fun y hy => hl' y (List.mem_cons_of_mem _ hy)))
+
+/-- `rowsLoop` agrees with the lexicographic order on lists of equal length -/
+theorem rowsLoop_eq : ∀ (l l' : List Rep), l.length = l'.length → (∀ x ∈ l, depth x < n) → (∀ y ∈ l', depth y < n) →
+    Impl.rowsLoop R l l' = (K.cmpList (l.map key) (l'.map key) == .lt)
+  | [], [], _, _, _ => rfl
+  | [], _ :: _, h, _, _ => by simp at h
+  | _ :: _, [], h, _, _ => by simp at h
+  | a :: as, b :: bs, h, hl, hl' => by
+    simp only [Impl.rowsLoop, List.map_cons, K.cmpList]
+    exact R_step n R H a b (hl a (by simp)) (hl' b (by simp)) _ _
+      (rowsLoop_eq as bs (by simpa using h) (fun x hx => hl x (List.mem_cons_of_mem _ hx))
+        (fun y hy => hl' y (List.mem_cons_of_mem _ hy)))
+
+def attrsK (l : List (String × Rep)) : List K :=
+  (l.map (fun p => (p.1, key p.2))).flatMap (fun p => [K.name p.1, p.2])
+
+theorem tupleLoop_eq : ∀ (l l' : List (String × Rep)), (∀ p ∈ l, depth p.2 < n) → (∀ q ∈ l', depth q.2 < n) →
+    Impl.tupleLoop R l l' = (K.cmpList (attrsK l) (attrsK l') == .lt)
+  | [], [], _, _ => rfl
+  | [], _ :: _, _, _ => rfl
+  | _ :: _, [], _, _ => rfl
+  | (a, x) :: as, (b, y) :: bs, hl, hl' => by
+    simp only [Impl.tupleLoop, attrsK, List.map_cons, List.flatMap_cons, List.cons_append, List.nil_append,
+      K.cmpList, K.cmp]
+    by_cases hab : a = b
+    · subst hab
+      simp only [ne_eq, not_true_eq_false, ite_false, ReflOrd.compare_self, Ordering.then]
+      have := tupleLoop_eq as bs (fun p hp => hl p (List.mem_cons_of_mem _ hp)) (fun q hq => hl' q (List.mem_cons_of_mem _ hq))
+      simp only [attrsK] at this
+      exact R_step n R H x y (hl (a, x) (by simp)) (hl' (a, y) (by simp)) _ _ this
+    · have hne : compare a b ≠ .eq := fun e => hab (LawfulEqOrd.compare_eq_iff_eq.1 e)
+      simp only [ne_eq, hab, not_false_eq_true, ite_true, strLt]
+      cases hc : compare a b <;> simp_all [Ordering.then]
+
+theorem arrayLoop_eq : ∀ (l l' : List (Option Rep)), (∀ x, some x ∈ l → depth x < n) → (∀ y, some y ∈ l' → depth y < n) →
+    Impl.arrayLoop R l l' = (K.cmpList (l.map (fun o => optKey (o.map key))) (l'.map (fun o => optKey (o.map key))) == .lt)
+  | [], [], _, _ => rfl
+  | [], _ :: _, _, _ => rfl
+  | _ :: _, [], _, _ => rfl
+  | av :: as, bv :: bs, hl, hl' => by
+    have ih := arrayLoop_eq as bs (fun x hx => hl x (List.mem_cons_of_mem _ hx)) (fun y hy => hl' y (List.mem_cons_of_mem _ hy))
+    cases av with
+    | none =>
+      cases bv with
+      | none =>
+        simp only [Impl.arrayLoop, List.map_cons, K.cmpList, Option.map_none, cmp_optKey_none_none]
+        rw [ih]; rfl
+      | some y =>
+        simp only [Impl.arrayLoop, List.map_cons, K.cmpList, Option.map_none, Option.map_some, cmp_optKey_none_some]
+        rfl
+    | some x =>
+      cases bv with
+      | none =>
+        simp only [Impl.arrayLoop, List.map_cons, K.cmpList, Option.map_none, Option.map_some, cmp_optKey_some_none]
+        rfl
+      | some y =>
+        simp only [Impl.arrayLoop, List.map_cons, K.cmpList, Option.map_some, cmp_optKey_some_some]
+        exact R_step n R H x y (hl x (by simp)) (hl' y (by simp)) _ _ ih
+
+end Loops
+
+theorem intsLoop_eq : ∀ (s t : List Int), Impl.intsLoop s t = (K.cmpList (s.map K.int) (t.map K.int) == .lt)
+  | [], [] => rfl
+  | [], _ :: _ => rfl
+  | _ :: _, [] => rfl
+  | a :: as, b :: bs => by
+    simp only [Impl.intsLoop, List.map_cons, K.cmpList, K.cmp]
+    by_cases hab : a = b
+    · subst hab; simp [intsLoop_eq as bs, Ordering.then]
+    · have hne : compare a b ≠ .eq := fun e => hab ((int_cmp_eq _ _).1 e)
+      simp only [ne_eq, hab, not_false_eq_true, ite_true, ← int_cmp_lt]
+      cases hc : compare a b <;> simp_all [Ordering.then]
 
 end Arrai.C06
